@@ -4,7 +4,7 @@
 use crate::guarded;
 use crate::sx::*;
 use easy_ml::tensors::indexing::{TensorAccess, TensorTranspose};
-use easy_ml::tensors::views::{TensorMut, TensorRange, TensorRef, TensorReverse};
+use easy_ml::tensors::views::{TensorMask, TensorMut, TensorRange, TensorRef, TensorRename, TensorReverse};
 use easy_ml::tensors::Tensor;
 
 pub enum Term {
@@ -13,13 +13,15 @@ pub enum Term {
     Range(Box<Term>, Vec<(usize, usize)>),
     Access(Box<Term>, Vec<usize>),
     Transpose(Box<Term>, Vec<usize>),
+    Mask(Box<Term>, Vec<(usize, usize)>),
+    Rename(Box<Term>, Vec<usize>),
 }
 
 impl Term {
     pub fn base_d(&self) -> usize {
         match self {
             Term::Base(s, _) => s.len(),
-            Term::Rev(t, _) | Term::Range(t, _) | Term::Access(t, _) | Term::Transpose(t, _) => t.base_d(),
+            Term::Rev(t, _) | Term::Range(t, _) | Term::Access(t, _) | Term::Transpose(t, _) | Term::Mask(t, _) | Term::Rename(t, _) => t.base_d(),
         }
     }
 }
@@ -32,6 +34,8 @@ pub fn parse_term(s: &Sx) -> Option<Term> {
         (2, 3) => Some(Term::Range(Box::new(parse_term(&v[1])?), v[2].pairs_usize()?)),
         (3, 3) => Some(Term::Access(Box::new(parse_term(&v[1])?), v[2].usizes()?)),
         (4, 3) => Some(Term::Transpose(Box::new(parse_term(&v[1])?), v[2].usizes()?)),
+        (5, 3) => Some(Term::Mask(Box::new(parse_term(&v[1])?), v[2].pairs_usize()?)),
+        (6, 3) => Some(Term::Rename(Box::new(parse_term(&v[1])?), v[2].usizes()?)),
         _ => None,
     }
 }
@@ -130,6 +134,28 @@ pub fn build_dyn<const D: usize>(t: &Term) -> Result<(Dyn<D>, *mut Tensor<i64, D
             }
             let names: [&'static str; D] = names_arr(names);
             match guarded(move || TensorTranspose::from(s, names)) {
+                Some(v) => Ok((Box::new(v), p)),
+                None => Err(Fail::Panic),
+            }
+        }
+        Term::Mask(inner, masks) => {
+            let (s, p) = build_dyn::<D>(inner)?;
+            if masks.len() != D {
+                return Err(Fail::Panic);
+            }
+            let masks: [Option<(usize, usize)>; D] = std::array::from_fn(|d| Some(masks[d]));
+            match TensorMask::from_all(s, masks) {
+                Ok(v) => Ok((Box::new(v), p)),
+                Err(e) => Err(Fail::Err(shape_sx(&e.shape()))),
+            }
+        }
+        Term::Rename(inner, names) => {
+            let (s, p) = build_dyn::<D>(inner)?;
+            if names.len() != D {
+                return Err(Fail::Panic);
+            }
+            let names: [&'static str; D] = names_arr(names);
+            match guarded(move || TensorRename::from(s, names)) {
                 Some(v) => Ok((Box::new(v), p)),
                 None => Err(Fail::Panic),
             }
